@@ -191,15 +191,20 @@ def check_sphere(case, ctx):
               f"E={E} R={R} nu={nu} dmax/R={dmaxfrac}: max|approx-exact|/Fmax={err / fmax:.3e}")
 
 
+# constants the documented formula must state (several notations accepted: \frac{a}{b}, a/b, decimals)
+def _fr(a, b):
+    return r"(\\[td]?frac\{%s\}\{%s\}|%s\s*/\s*%s)" % (a, b, a, b)
+
+
 DOC_PATTERNS = {
-    "hertz_para": [r"\\frac\{4\}\{3\}", r"\\delta\^\{3/2\}", r"\\sqrt\{R\}", r"1-\\nu\^2"],
-    "hertz_cone": [r"\\frac\{2\\tan\\alpha\}\{\\pi\}", r"\\delta\^2", r"1-\\nu\^2"],
-    "hertz_pyr3s": [r"0\.8887\s*\\tan\\alpha", r"\\delta\^2", r"1-\\nu\^2"],
-    "sneddon_spher_approx": [r"\\frac\{4\}\{3\}", r"\\delta\^\{3/2\}", r"-\s*\\frac\{1\}\{10\}",
-                             r"-\s*\\frac\{1\}\{840\}", r"\+\s*\\frac\{11\}\{15120\}",
-                             r"\+\s*\\frac\{1357\}\{6652800\}"],
-    "power_layer_clifford_2009": [r"P=2\.25", r"n=1\.5", r"m=2/3", r"B_\\mathrm\{S\}=0\.22",
-                                  r"B_\\mathrm\{L\}=1\.92", r"\\frac\{4\}\{3\}"],
+    "hertz_para": [_fr(4, 3), r"\^\{?(3/2|1\.5)\}?", r"\\sqrt\{R\}", r"1\s*-\s*\\nu\^\{?2\}?"],
+    "hertz_cone": [r"(\\[td]?frac\{2\s*\\tan\s*\\alpha\}\{\\pi\}|2\s*\\tan\s*\\alpha\s*/\s*\\pi)",
+                   r"\\delta\^\{?2\}?", r"1\s*-\s*\\nu\^\{?2\}?"],
+    "hertz_pyr3s": [r"0\.8887\s*\\tan\s*\\alpha", r"\\delta\^\{?2\}?", r"1\s*-\s*\\nu\^\{?2\}?"],
+    "sneddon_spher_approx": [_fr(4, 3), r"\^\{?(3/2|1\.5)\}?", r"-\s*" + _fr(1, 10), r"-\s*" + _fr(1, 840),
+                             r"\+\s*" + _fr(11, 15120), r"\+\s*" + _fr(1357, 6652800)],
+    "power_layer_clifford_2009": [r"P\s*=\s*2\.25", r"n\s*=\s*(1\.5|3/2)", r"m\s*=\s*(2/3|" + _fr(2, 3) + ")",
+                                  r"B_\\mathrm\{S\}\s*=\s*0\.22", r"B_\\mathrm\{L\}\s*=\s*1\.92", _fr(4, 3)],
 }
 
 
